@@ -22,6 +22,31 @@ Proof.
   eapply Permutation_NoDup; [apply Permutation_sym; exact Qp|exact Hn].
 Qed.
 
+(* The code as repaired (fix 7466992): when the mapping fails because no block is left, every index block the
+   call had just allocated is given back, nothing has been written, and the inode keeps its old root - the call
+   is undone.  [indbmap_undo] is that function; its ownership statement is the one above with the failure case
+   made explicit: a failed mapping changes neither the tree, nor the disk, nor the free list. *)
+Definition indbmap_undo (lvl root off : nat) (d : disk) (fr : list nat) : nat * nat * disk * list nat :=
+  let '(blk, root', d', fr') := indbmap NB lvl root off d fr in
+  if Nat.eqb blk 0 then (0, root, d, fr) else (blk, root', d', fr').
+
+Theorem indbmap_undo_ownership lvl root off d fr :
+  off < pw NB lvl -> NoDup (blocks NB d lvl root ++ fr) -> free_zero d fr -> ~ In 0 fr ->
+  let '(blk, root', d', fr') := indbmap_undo lvl root off d fr in
+  NoDup (blocks NB d' lvl root' ++ fr') /\
+  Permutation (blocks NB d' lvl root' ++ fr') (blocks NB d lvl root ++ fr) /\
+  free_zero d' fr' /\
+  (forall off', off' < pw NB lvl -> off' <> off -> leaf NB d' lvl root' off' = leaf NB d lvl root off') /\
+  (blk = 0 -> root' = root /\ d' = d /\ fr' = fr).
+Proof.
+  intros Ho Hn Hz H0. unfold indbmap_undo.
+  pose proof (indbmap_ownership lvl root off d fr Ho Hn Hz H0) as S.
+  destruct (indbmap NB lvl root off d fr) as [[[blk root'] d'] fr'].
+  destruct (Nat.eqb_spec blk 0) as [E|E].
+  - split; [exact Hn|]. split; [apply Permutation_refl|]. split; [exact Hz|]. split; [reflexivity|]. auto.
+  - destruct S as (S1 & S2 & S3 & S4). repeat (split; [assumption|]). intros C. contradiction.
+Qed.
+
 (* freeing from the top: ownership stays a permutation, freed blocks are zero, lower offsets keep
    their blocks *)
 Theorem shrink_ownership lvl root bn d fr :
